@@ -48,7 +48,8 @@ def run(tier, seed):
             srcs = {}
 
             def S(tag, vals):
-                srcs[tag] = Cnt(vals)
+                # the coefficient stream is LONGER than the input: when the input ends, exactly one item per output was read
+                srcs[tag] = Cnt(list(vals) + [F(9), F(-9), F(9)])
                 return Stream(srcs[tag])
             filt = build(S)
             got = list(filt(list(x), zero=F(0)))
@@ -56,8 +57,8 @@ def run(tier, seed):
             if len(got) != len(exp) or any(F(g) != e for g, e in zip(got, exp)):
                 return False, "output %r, time-varying difference equation gives %r" % ([str(g) for g in got], [str(e) for e in exp])
             for tag, c in srcs.items():
-                if c.pulled > len(exp) + 1:
-                    return False, "coefficient stream %s read %d times for %d outputs (once per output sample)" % (tag, c.pulled, len(exp))
+                if c.pulled != len(exp):
+                    return False, "coefficient stream %s read %d times for %d outputs (exactly once per output sample)" % (tag, c.pulled, len(exp))
             return True, ""
         R.guard(name, {}, case)
     # Stream * z**-k expressions
@@ -72,6 +73,13 @@ def run(tier, seed):
           {0: const(2), 1: [1 - 2 * v for v in s1]}, {0: const(1), 1: [-v for v in s1]})
     check("filter-minus-stream", lambda S: (1 + z ** -1) - S("s2", s2), {0: [1 - v for v in s2], 1: const(1)}, {0: const(1)})
     check("constant-stream-behaves-like-the-constant", lambda S: S("c", const(5)) * z ** -1 + 1, {0: const(1), 1: const(5)}, {0: const(1)})
+    check("difference-of-iir-filters-with-a-stream-denominator", lambda S: 1 / (1 - S("s1", s1) * z ** -1) - 1 / (1 - 2 * z ** -1),
+          {1: [v - 2 for v in s1]}, {0: const(1), 1: [-(v + 2) for v in s1], 2: [2 * v for v in s1]})
+    check("sum-of-iir-filters-with-a-stream-denominator", lambda S: 1 / (1 - S("s1", s1) * z ** -1) + 1 / (1 - 2 * z ** -1),
+          {0: const(2), 1: [-(v + 2) for v in s1]}, {0: const(1), 1: [-(v + 2) for v in s1], 2: [2 * v for v in s1]})
+    check("square-of-a-stream-filter", lambda S: (S("s1", s1) + z ** -1) ** 2, {0: [v * v for v in s1], 1: [2 * v for v in s1], 2: const(1)}, {0: const(1)})
+    check("cube-of-a-stream-filter-is-the-threefold-product", lambda S: (S("s1", s1) + z ** -1) ** 3,
+          {0: [v ** 3 for v in s1], 1: [3 * v * v for v in s1], 2: [3 * v for v in s1], 3: const(1)}, {0: const(1)})
     # the leading denominator coefficient a0 as a Stream
     check("a0-stream-no-feedback", lambda S: ZFilter([1, 2], {0: S("a0", s3)}), {0: const(1), 1: const(2)}, {0: s3})
     check("a0-stream-one-feedback-term", lambda S: ZFilter([1], {0: S("a0", s3), 1: F(1, 2)}), {0: const(1)}, {0: s3, 1: const(F(1, 2))})
@@ -83,4 +91,4 @@ def run(tier, seed):
         got = list((Stream(list(short)) * z ** -1 + 1)(list(x), zero=F(0)))
         return len(got) == 3, "output has %d samples, the coefficient stream has 3" % len(got)
     R.guard("output-ends-when-a-coefficient-stream-ends", {}, ends)
-    return R.result("13 filter expressions with finite coefficient streams (7 samples, exact Fractions), read counters on every coefficient source")
+    return R.result("17 filter expressions with finite coefficient streams (longer than the 7-sample input, exact Fractions), read counters on every coefficient source")
